@@ -44,6 +44,30 @@ func init() {
 			os.Exit(3)
 		}
 		verifDump(os.Stdout, g)
+	case "astdump-seq", "astdump-bootstrap-seq":
+		// several texts (separated by a %%NEXT%% line) parsed one after the other inside one process -
+		// by the generated front-end, or by ONE hand-written bootstrap parser that is used again for
+		// every text; one dump or PARSE-ERROR line per text, each introduced by a %%RESULT%% line
+		src, _ := io.ReadAll(os.Stdin)
+		bp := bootstrap.NewParser()
+		for i, text := range bytes.Split(src, []byte("\n%%NEXT%%\n")) {
+			fmt.Printf("%%%%RESULT%%%% %d\n", i)
+			var g *ast.Grammar
+			var err error
+			if mode == "astdump-seq" {
+				var v any
+				if v, err = ParseReader("stdin", bytes.NewReader(text)); err == nil {
+					g = v.(*ast.Grammar)
+				}
+			} else {
+				g, err = bp.Parse("stdin", bytes.NewReader(text))
+			}
+			if err != nil {
+				fmt.Println("PARSE-ERROR:", strings.ReplaceAll(err.Error(), "\n", " | "))
+				continue
+			}
+			verifDump(os.Stdout, g)
+		}
 	case "multibuild":
 		// parse + (optimize) + build the same text(s) k times inside one process, print one digest each
 		src, _ := io.ReadAll(os.Stdin)
